@@ -695,6 +695,12 @@ package priority
 //@   blocking
 //@   ensures true
 
+//@ event recv done ()
+
+//@ func (*Simple).gracefulStop
+//@   requires [*] smpl != nil && smpl.priority != nil
+//@   modifies gStop, gClock
+
 //@ func (*Simple).handler
 //@   requires [*] smpl != nil && smpl.opts.Handle != nil
 //@   requires [C01 C02] ghost-initial-state: !gSHolding
